@@ -973,6 +973,7 @@ func c17UnitShard(ctx *Ctx, res *Result, spec c17ShardSpec) {
 	flush()
 	// makefiles with directives (Model/RedundantDir.v)
 	c17DUnit(ctx, res, rng)
+	c17DExhaustive(ctx, res, spec)
 }
 
 func runC17Shard(ctx *Ctx) *Result {
@@ -1532,7 +1533,7 @@ func runC17(ctx *Ctx) *Result {
 		"dir_pkg_with_verdicts_shape_same-file-twice": 100, "dir_pkg_with_verdicts_shape_one-guarded-fragment": 100,
 		"dir_binary_shape_two-fragments-shared-guard": 10, "dir_binary_shape_mk-file-undef": 10, "dir_binary_shape_same-file-twice": 10,
 		"dir_binary_shape_guard-defined-by-makefile": 8, "dir_binary_shape_condition-in-included-file": 6,
-		"crosschecked_dir_goals": 60,
+		"crosschecked_dir_goals": 60, "dir_exhaustive_programs": 80000,
 	}
 	for _, k := range sortedKeys(floors) {
 		n, _ := res.Distribution[k].(int)
